@@ -539,7 +539,22 @@ def _bool(I, self, args, kw, fr, site):
     return VBool(I.truthy(args[0]))
 
 
-@intrinsic("builtins.bytes", "builtins.bytearray")
+@intrinsic("builtins.bytearray")
+def _bytearray(I, self, args, kw, fr, site):
+    r = _bytes(I, self, args, kw, fr, site)
+    return VSeq(r.segs, "bytearray")
+
+
+@intrinsic("builtins.memoryview")
+def _memoryview(I, self, args, kw, fr, site):
+    """a memoryview of a bytes-like object behaves as that byte string for slicing, len and hand-over to writers"""
+    v = args[0]
+    if isinstance(v, VSeq) and v.pytype != "str":
+        return VSeq(v.segs, "bytes")
+    raise Unsupported("memoryview(%s)" % I.type_name(v))
+
+
+@intrinsic("builtins.bytes")
 def _bytes(I, self, args, kw, fr, site):
     if not args:
         return VSeq([], "bytes")
